@@ -771,11 +771,17 @@ val stmt_of_tokens :
 val stmt_of_equation :
   (char list -> nat option) -> char list -> (char list * sstmt) option
 
+val ends_with_2 : char -> char list -> bool
+
+val mangled : char list -> bool
+
 val names_of_type : ptype -> symbol list -> char list list
 
 val names_of : symbol list -> char list list
 
 val index_of : char list -> char list list -> nat option
+
+val row_of : char list list -> char list -> nat option
 
 val assoc_stmt : char list -> (char list * sstmt) list -> sstmt option
 
